@@ -40,4 +40,22 @@ def maxSpanDepth (doc : Bytes) : Option Nat :=
 /-- the depth the model reaches on every nest document, in the order of `nestSeqs` -/
 def nestDepths : Option (List Nat) := nestSeqs.mapM fun ks => maxSpanDepth (nestDoc ks)
 
+/-! ## Cost of deep block quotes (round E, review C17-5)
+
+Every `>` of a line is a token of its own and opens one more nested quote decoder; `scan`,
+`Style` and `Quote` recurse along that chain for every token.  `levelVisits` counts, for the
+tokens `NewDecoder` returns, the levels of the chain that are walked (`Quote()` of the token
+plus one): the work of the decoder in units of `Level`, where `C17_terminates` only counts
+calls of the split function. -/
+
+/-- `n` block quote markers, then ` a\n` -/
+def quoteDoc (n : Nat) : Bytes := List.replicate n gt ++ [0x20, 0x61, nl]
+
+/-- the number of chain levels walked for the tokens of `doc` (`none`: the decoding does not
+reach the end of the input) -/
+def levelVisits (doc : Bytes) : Option Nat :=
+  match decode none ⟨[], true⟩ doc with
+  | (some evs, .eof) => some ((evs.map fun e => e.quote + 1).sum)
+  | _ => none
+
 end XmppModel.Styling
